@@ -15,7 +15,7 @@ def main(argv):
     path = core.VERIF / "gev" / "thresholds_thorough.json"
     cur = json.load(open(path)) if path.exists() else {}
     for pid in argv:
-        ev = json.load(open(core.VERIF / "evidence" / f"{pid}.json"))
+        ev = json.load(open(__import__("pathlib").Path(__import__("os").environ.get("GEV_EVIDENCE_DIR", core.VERIF / "evidence")) / f"{pid}.json"))
         if ev["tier"] != "thorough":
             print(pid, "evidence is not from a thorough run; skipped")
             continue
